@@ -497,7 +497,7 @@ pub fn random_edits(rng: &mut Rng, a2l: &mut A2lFile, rec: &mut Recorder) -> boo
     let n = rng.urange(1, 4);
     for _ in 0..n {
         let module = &mut a2l.project.module[0];
-        match rng.below(8) {
+        match rng.below(9) {
             0 => {
                 let mut used: Vec<String> = module
                     .measurement
@@ -571,6 +571,64 @@ pub fn random_edits(rng: &mut Rng, a2l: &mut A2lFile, rec: &mut Recorder) -> boo
                     rec.bump("edit.add_child_to_measurement");
                     done = true;
                 }
+            }
+            7 => {
+                // assign negative values to signed integer fields (which may carry a hex notation flag)
+                let neg16 = *rng.pick(&[-1i16, -2, -128, i16::MIN]);
+                let neg32 = *rng.pick(&[-1i32, -5, i32::MIN]);
+                for m in module.measurement.iter_mut() {
+                    if let Some(x) = &mut m.ecu_address_extension {
+                        x.extension = neg16;
+                        done = true;
+                    }
+                    if let Some(x) = &mut m.symbol_link {
+                        x.offset = neg32;
+                        done = true;
+                    }
+                }
+                for c in module.characteristic.iter_mut() {
+                    if let Some(x) = &mut c.ecu_address_extension {
+                        x.extension = neg16;
+                        done = true;
+                    }
+                    for ad in &mut c.axis_descr {
+                        if let Some(f) = &mut ad.fix_axis_par {
+                            f.offset = neg16;
+                            f.shift = -1;
+                            done = true;
+                        }
+                        if let Some(f) = &mut ad.fix_axis_par_dist {
+                            f.offset = neg16;
+                            done = true;
+                        }
+                    }
+                }
+                if let Some(mp) = &mut module.mod_par {
+                    if let Some(x) = &mut mp.ecu_calibration_offset {
+                        x.offset = neg32;
+                        done = true;
+                    }
+                    for ms in mp.memory_segment.iter_mut() {
+                        ms.offset = [neg32, -1, 0, 1, neg32];
+                        done = true;
+                    }
+                    for cm in mp.calibration_method.iter_mut() {
+                        for h in cm.calibration_handle.iter_mut() {
+                            for v in h.handle_list.iter_mut() {
+                                *v = neg32;
+                                done = true;
+                            }
+                        }
+                    }
+                }
+                for u in module.unit.iter_mut() {
+                    if let Some(x) = &mut u.si_exponents {
+                        x.length = neg16;
+                        x.time = -3;
+                        done = true;
+                    }
+                }
+                rec.bump("edit.negative_values_in_signed_fields");
             }
             _ => {
                 a2l.project.long_identifier = text(rng);
